@@ -491,9 +491,17 @@ func (db *Backend) ListBucketVersions(
 		iter.Seek(page.KeyMarker)
 	}
 
-	var truncated = false
 	var first = true
 	var cnt int64 = 0
+
+	// nextVersion records the first entry that did not fit into the page.
+	nextVersion := func(key string, version *bucketData) {
+		result.IsTruncated = true
+		result.NextKeyMarker = key
+		if bucket.versioning != gofakes3.VersioningNone { // S300005
+			result.NextVersionIDMarker = version.versionID
+		}
+	}
 
 	// FIXME: The S3 docs have this to say on the topic of result ordering:
 	//   "The following request returns objects in the order they were stored,
@@ -518,9 +526,11 @@ func (db *Backend) ListBucketVersions(
 			continue
 		}
 
-		versions := iter.Value().(*bucketObject).Iterator()
+		versions := object.Iterator()
 		if first {
-			if page.VersionIDMarker != "" {
+			// The version marker names a version of the key marker's object; it
+			// means nothing if listing resumes at a later key.
+			if page.VersionIDMarker != "" && object.name == page.KeyMarker {
 				if !versions.Seek(page.VersionIDMarker) {
 					// FIXME: log
 					return result, gofakes3.ErrInternal
@@ -559,14 +569,28 @@ func (db *Backend) ListBucketVersions(
 
 			cnt++
 			if page.MaxKeys > 0 && cnt >= page.MaxKeys {
-				truncated = versions.Next()
+				if versions.Next() {
+					// The page ends inside this object's history.
+					nextVersion(object.name, versions.Value())
+				}
 				goto done
 			}
 		}
 	}
 
 done:
-	result.IsTruncated = truncated || iter.Next()
+	// The page is full (or the listing is finished): the markers name the
+	// first entry not returned, if there is one.
+	for !result.IsTruncated && iter.Next() {
+		object := iter.Value().(*bucketObject)
+		if !prefix.Match(object.name, &match) {
+			continue
+		}
+		versions := object.Iterator()
+		if versions.Next() {
+			nextVersion(object.name, versions.Value())
+		}
+	}
 
 	return result, nil
 }
